@@ -160,6 +160,12 @@ func init() {
 	V("vrtDeepEqual", func(fr *frame, a []value) value {
 		return mkScalar(fr.i.deepEqTerm(a[0], a[1], 0), types.Bool)
 	})
+	// vrtEquivalent: deep equality where a nil slice / map equals an empty one
+	V("vrtEquivalent", func(fr *frame, a []value) value {
+		fr.i.eqLoose = true
+		defer func() { fr.i.eqLoose = false }()
+		return mkScalar(fr.i.deepEqTerm(a[0], a[1], 0), types.Bool)
+	})
 	V("vrtLock", func(fr *frame, a []value) value { return nil })
 	V("vrtUnlock", func(fr *frame, a []value) value { return nil })
 	V("vrtYield", func(fr *frame, a []value) value { fr.i.sched().yield(nil); return nil })
@@ -323,7 +329,7 @@ func (i *interpreter) deepEqTerm(x, y value, depth int) *term {
 		return i.deepEqTerm(a.v, b.v, depth+1)
 	case []value:
 		b, ok := y.([]value)
-		if !ok || len(a) != len(b) || (a == nil) != (b == nil) {
+		if !ok || len(a) != len(b) || (!i.eqLoose && (a == nil) != (b == nil)) {
 			return F
 		}
 		r := T
@@ -359,7 +365,13 @@ func (i *interpreter) deepEqTerm(x, y value, depth int) *term {
 		return r
 	case *omap:
 		b, ok := y.(*omap)
-		if !ok || (a == nil) != (b == nil) || a.len() != b.len() {
+		if !ok {
+			return F
+		}
+		if i.eqLoose && (a == nil || b == nil) {
+			return ts.constBool((a == nil || a.len() == 0) && (b == nil || b.len() == 0))
+		}
+		if (a == nil) != (b == nil) || a.len() != b.len() {
 			return F
 		}
 		r := T
